@@ -1,4 +1,4 @@
 SPECIFICATION Spec
-CONSTANTS N3 = 1  N2 = 2  N4 = 1  E = 1  A = 1  I = 1  NL = {0}  EL = {0}  TL = 2  TNL = {0, 1}  NL4 = {0}
+CONSTANTS N3 = 1  N2 = 2  N4 = 1  E = 1  A = 1  I = 1  NL = {0}  EL = {0}  TL = 2  TNL = {0, 1}  NL4 = {0}  MidN = 2  MidI = 2
 INVARIANTS Laws
 CHECK_DEADLOCK FALSE
